@@ -211,8 +211,15 @@ def finish(run, error=None):
         if not new:
             return 2
         # a definite violation found before the analyser gave up elsewhere is still a violation
+    rdir = os.path.join(VERIF, "evidence", "replay")
+    if write_ev and os.path.isdir(rdir) and run.only_rule is None:
+        for old_f in os.listdir(rdir):      # replay files of an earlier run of this property are stale now
+            if old_f.startswith(run.pid + "_") and old_f.endswith(".json"):
+                try:
+                    os.unlink(os.path.join(rdir, old_f))
+                except OSError:
+                    pass
     if new:
-        rdir = os.path.join(VERIF, "evidence", "replay")
         os.makedirs(rdir, exist_ok=True)
         for i, f in enumerate(new):
             rp = os.path.join(rdir, "%s_%d.json" % (run.pid, i))
